@@ -84,6 +84,8 @@ def curve_set(draw, n_curves=(1, 3), n_points=(3, 7), noise=True, bases=("weight
     temps = sorted(draw(st.lists(gen.uniform(293.0, 373.0), min_size=nc, max_size=nc, unique_by=lambda t: round(t / 4.0))))
     while len(temps) < nc:  # (unique_by may shorten the list only via filtering; keep construction total)
         temps.append(temps[-1] + 7.0)
+    if nc > 1 and draw(st.integers(0, 4)) == 0:
+        temps = [temps[0]] * nc  # several curves measured at ONE temperature (still a multi-curve set)
     npts = draw(st.integers(*n_points))
     curves = []
     for t in temps:
